@@ -31,12 +31,13 @@ GLOBAL_ASSUMPTIONS = [
 # for functions the verifier could not decide (contract no longer fits the code, unsupported construct, solver timeout) and
 # in the thorough tier as an extra exploration; what they cover is reported as *bounded*, never as proved.
 BOUNDED = [
-    dict(prefix=('ml_pipeline_engine/dag_builders/annotation/builder.py::',), script='bounded/builder.py', props=('C15', 'C16')),
+    dict(prefix=('ml_pipeline_engine/dag_builders/annotation/builder.py::',), script='bounded/builder.py', props=('C15', 'C16', 'C17')),
+    dict(prefix=('ml_pipeline_engine/artifact_store/',), script='bounded/fsstore.py', props=('C18',)),
     dict(prefix=('ml_pipeline_engine/dag/manager.py::', 'ml_pipeline_engine/dag/storage.py::', 'ml_pipeline_engine/dag/dag.py::',
                  'ml_pipeline_engine/dag/retrying.py::', 'ml_pipeline_engine/context/dag.py::', 'ml_pipeline_engine/node/node.py::',
                  'ml_pipeline_engine/chart.py::', 'ml_pipeline_engine/dag/graph.py::'),
          script='bounded/engine.py',
-         props=('C01', 'C02', 'C03', 'C04', 'C05', 'C06', 'C07', 'C09', 'C10', 'C11', 'C12', 'C13', 'C14', 'C19')),
+         props=('C01', 'C02', 'C03', 'C04', 'C05', 'C06', 'C07', 'C08', 'C09', 'C10', 'C11', 'C12', 'C13', 'C14', 'C19')),
 ]
 VENV_PY = '/venv/bin/python'
 
